@@ -21,7 +21,7 @@ WEIGHTS = {
     "tree_path": 9, "new_file": 8, "new_directory": 8, "new_symlink": 3, "create_path": 3, "assign_id": 1,
     "delete_contents": 8, "cancel_deletion": 1, "adjust_path": 16, "version_file": 6, "cancel_versioning": 1,
     "unversion_file": 6, "set_executability": 9, "create_file": 4, "create_directory": 4, "create_symlink": 2,
-    "cancel_creation": 2, "replace": 6, "delete_versioned": 3, "chmod_tree_file": 5, "shadow": 6,
+    "cancel_creation": 2, "replace": 6, "delete_versioned": 3, "chmod_tree_file": 5, "shadow": 6, "move_tree_file": 5,
 }
 
 
@@ -161,6 +161,18 @@ def _gen_kind(rng, st, k):
         if how == "new_file":
             op["content"] = _content(rng)
         return op
+    if k == "move_tree_file":
+        # a plain move / rename of an existing versioned file that gets nothing else (executable ones preferred: their bit
+        # has to travel with them although the transform never mentions it)
+        if full:
+            return None
+        have = {s.path for s in st.slots if s.origin == "tree"}
+        cands = [q for q in sorted(st.tree_exec) if q not in have]
+        if not cands:
+            return None
+        execs = [q for q in cands if st.tree_exec[q]]
+        q = rng.choice(execs if execs and rng.random() < 0.8 else cands)
+        return {"op": "tree_path_move", "path": q, "name": rng.choice(st.names), "parent": _pick_parent(rng, st) if rng.random() < 0.4 else "root"}
     if k == "chmod_tree_file":
         # the plainest exec-only change: flip the bit of a versioned file that gets nothing else
         slot_of = {s.path: i for i, s in enumerate(st.slots) if s.origin == "tree" and not s.dead}
@@ -262,7 +274,7 @@ def note_op(st, op, ok):
             st.used_new_ids.add(op["file_id"])
             st.slots.append(n)
         return
-    if k in ("tree_path", "tree_path_exec"):
+    if k in ("tree_path", "tree_path_exec", "tree_path_move"):
         s = Slot("tree", op["path"], named=True)
         s.dead = not ok
         s.exec_set = ok and k == "tree_path_exec"
@@ -352,6 +364,11 @@ def execute(tt, ids, op, git):
         else:
             ids[-1] = tt.create_path(name, parent)
             tt.version_file(ids[-1], file_id=_fid(op["file_id"], git))
+    elif k == "tree_path_move":
+        ids.append(None)
+        t = tt.trans_id_tree_path(op["path"])
+        ids[-1] = t
+        tt.adjust_path(op["name"], tid(op["parent"]), t)
     elif k == "tree_path_exec":
         ids.append(None)
         t = tt.trans_id_tree_path(op["path"])
